@@ -98,7 +98,8 @@ Proof. exact deliver_only_sealed. Qed.
 Print Assumptions C05_13_deliver_only_sealed.
 
 (* Over every operation history (datagrams, key installations incl. KeyUpdate generations, epoch changes,
-   replays of the parked queue): every delivered payload was sealed by the peer as application data (inner type 23). *)
+   replays of the parked queue): every payload accepted for Read - handed over at once, or parked because the local
+   handshake had not completed yet - was sealed by the peer as application data (inner type 23). *)
 Theorem C05_13_every_delivery_sealed :
   forall (snmask : N -> bytes -> N) (aopen : N -> N -> bytes -> bytes -> option bytes)
     (hs_room : bytes -> bool) (log : list (N * N * bytes * bytes * bytes)),
@@ -109,17 +110,30 @@ Theorem C05_13_every_delivery_sealed :
 Proof. exact run_deliver_sealed. Qed.
 Print Assumptions C05_13_every_delivery_sealed.
 
-(* Over every history: every record the endpoint acted on in a protected epoch (it commits the replay slot exactly
-   when it delivers data, acts on an alert, hands a handshake / KeyUpdate / ACK record to the handshake layer or
-   handles a return-routability message) is a tuple the peer sealed.  Epoch 0 is exempt here (any state); for an established connection see
-   C05_13_established_effects_sealed, which covers epoch 0 too. *)
+(* ... and so is whatever Read actually returns, the payloads parked during the handshake included. *)
+Theorem C05_13_every_read_sealed :
+  forall (snmask : N -> bytes -> N) (aopen : N -> N -> bytes -> bytes -> option bytes)
+    (hs_room : bytes -> bool) (log : list (N * N * bytes * bytes * bytes)),
+  (forall (e q : N) (a c i : bytes), aopen e q a c = Some i -> In (e, q, a, c, i) log) ->
+  forall (W : nat) (ops : list op) (s : rstate) (p : bytes) (e q : N),
+  r_early s = [] ->
+  In (p, e, q) (reads (snd (run_ops snmask aopen hs_room W s ops))) ->
+  e <> 0 /\ (exists a c i : bytes, In (e, q, a, c, i) log /\ inner_unmarshal i = Some (p, 23)).
+Proof. exact run_read_sealed. Qed.
+Print Assumptions C05_13_every_read_sealed.
+
+(* Over every history: every committed replay slot - the endpoint commits one exactly when it delivers or parks data, acts on
+   an alert, hands a handshake / KeyUpdate / ACK record to the handshake layer or handles a return-routability message
+   of a PROTECTED record - is a tuple the peer sealed.  An unprotected (epoch 0) record never commits a slot: nothing
+   authenticates its number, so it must not move the window (repaired: one forged epoch-0 record numbered 2^48-1 used to
+   make every genuine handshake record a replay). *)
 Theorem C05_13_every_commit_sealed :
   forall (snmask : N -> bytes -> N) (aopen : N -> N -> bytes -> bytes -> option bytes)
     (hs_room : bytes -> bool) (log : list (N * N * bytes * bytes * bytes)),
   (forall (e q : N) (a c i : bytes), aopen e q a c = Some i -> In (e, q, a, c, i) log) ->
   forall (W : nat) (ops : list op) (s : rstate) (e q : N),
   In (e, q) (marks (snd (run_ops snmask aopen hs_room W s ops))) ->
-  e = 0 \/ (exists a c i : bytes, In (e, q, a, c, i) log).
+  exists a c i : bytes, In (e, q, a, c, i) log.
 Proof. exact run_marks_sealed. Qed.
 Print Assumptions C05_13_every_commit_sealed.
 
@@ -197,7 +211,8 @@ Theorem C05_13_ack_only_authentic :
 Proof. exact ack_only_authentic. Qed.
 Print Assumptions C05_13_ack_only_authentic.
 
-(* Unprotected (legacy-header) records never deliver application data. *)
+(* Unprotected (legacy-header) records never deliver application data (repaired: they are now refused silently,
+   not answered with a fatal alert). *)
 Theorem C05_13_unprotected_never_delivers :
   forall (hs_room : bytes -> bool) (W : nat) (lease : bool) (s : rstate) (b : bytes),
   deliveries (snd (recv_legacy hs_room W lease s b)) = [].
@@ -245,6 +260,7 @@ Theorem C05_13_established_outputs_from_ciphertext :
     (hs_room : bytes -> bool) (W : nat) (o : out) (ops : list op) 
     (s : rstate),
   r_estab s = true ->
+  r_early s = [] ->
   QI s ->
   In o (snd (run_ops snmask aopen hs_room W s ops)) ->
   exists (lease : bool) (s' : rstate) (b : bytes),
@@ -270,6 +286,7 @@ Theorem C05_13_established_effects_sealed :
   (forall (e q : N) (a c i : bytes), aopen e q a c = Some i -> In (e, q, a, c, i) log) ->
   forall (W : nat) (ops : list op) (s : rstate) (o : out),
   r_estab s = true ->
+  r_early s = [] ->
   QI s ->
   In o (snd (run_ops snmask aopen hs_room W s ops)) ->
   match o with
@@ -300,7 +317,7 @@ Theorem C05_13_unprotected_alert_during_handshake :
   forall (snmask : N -> bytes -> N) (aopen : N -> N -> bytes -> bytes -> option bytes)
     (hs_room : bytes -> bool),
   snd (recv13 snmask aopen hs_room 64 (rinit [] false false) plain_alert) =
-  [OMark 0 4138; OAlertIn 0 4138 2 80; OClosed].
+  [OAlertIn 0 4138 2 80; OClosed].
 Proof. exact unprotected_alert_during_handshake. Qed.
 Print Assumptions C05_13_unprotected_alert_during_handshake.
 
@@ -335,7 +352,7 @@ Print Assumptions C05_13_unprotected_handshake_inert_example.
 Theorem C05_13_unprotected_handshake_during_handshake :
   forall (snmask : N -> bytes -> N) (aopen : N -> N -> bytes -> bytes -> option bytes),
   snd (recv13 snmask aopen (fun _ : bytes => true) 64 (rinit [] false false) plain_keyupdate) =
-  [OMark 0 4263; OHs 0 4263 [24; 0; 0; 1; 0; 7; 0; 0; 0; 0; 0; 1; 0]].
+  [OHs 0 4263 [24; 0; 0; 1; 0; 7; 0; 0; 0; 0; 0; 1; 0]].
 Proof. exact unprotected_handshake_during_handshake. Qed.
 Print Assumptions C05_13_unprotected_handshake_during_handshake.
 
@@ -366,7 +383,7 @@ Proof.
   apply andb_prop in E. destruct E as [He Hq]. apply N.eqb_eq in He, Hq. apply bytes_eqb_eq in Ha, Hc. subst. now left.
 Qed.
 Example C05_13_example :
-  let s := mk_rstate 3 (Some 3) [2] [] [] [] [] false false false true in
+  let s := mk_rstate 3 (Some 3) [2] [] [] [] [] false false false true [] in
   let genuine := [47; 0; 7; 0; 19] ++ repeat 9 19 in
   let forged := [47; 0; 7; 0; 19] ++ repeat 9 18 ++ [8] in
   deliveries (snd (run_ops (fun _ _ => 0) ex_open (fun _ => true) 64 s
